@@ -2,7 +2,7 @@ SPECIFICATION SpecMC
 CONSTANTS
   Starts = {"2x2","3x3","r3","n2","v4"}
   OpNames = {"InsertRow","AppendRow","DeleteRow","DeleteRows","InsertColumn","AppendColumn","DeleteColumn","DeleteColumns","SetCellText","ClearCellParagraphs","AddCellParagraph","AddNestedTable","MergeCellsHorizontal","MergeCellsVertical","MergeCellsRange","UnmergeCells","ClearTable","CopyTable","ReadAll"}
-  Creates = "all"
+  Creates = "core"
   Depth = 0
   Slack = 1
   PairMode = "core"
